@@ -163,7 +163,8 @@ class ConfigTargetVisibility(object):
         if type(node.item) is kconfiglib.Symbol or type(node.item) is kconfiglib.Choice:
             dependencies = node.item.direct_dep  # "depends on" for configs
             name_id = node.item.name
-            simple_def = len(node.item.nodes) <= 1  # defined only in one source file
+            # defined only in one source file; choices without a name have no key of their own to be stored under
+            simple_def = len(node.item.nodes) <= 1 and name_id is not None
             # Probably it is not necessary to check the default statements.
         else:
             # A menu is hidden when either its "visible if" or its own "depends on" (node.dep) is a hard n for this
